@@ -2,7 +2,7 @@
 from .. import core, hist
 from ..gen import KEY_POOL, PREFIX, hx, rng_for
 
-EXTRA_PROP_MODULES = [("KB.Props.OrderC06", "KB.OrderC06")]
+EXTRA_PROP_MODULES = [("KB.Props.OrderC06", "KB.OrderC06"), ("KB.Props.OrderC09", "KB.OrderC09")]
 
 ENGINES = ["memkv", "badger", "tikv"]
 
